@@ -125,6 +125,8 @@ OPT_VALUES = {
 def cases(tier, seed, flavour):
     for e in ENTRIES:
         yield {'part': 'options', 'entry': e, 'seed': seed}
+    for d in ({'l': 3, 'q': [], 's': []}, {'l': 1, 'q': [3], 's': []}, {'l': 1, 'q': [], 's': [2]}, {'l': 1, 'q': [2], 's': [2]}):
+        yield {'part': 'tolerances', 'dims': d, 'seed': seed}
     for e in ENTRIES:
         yield {'part': 'hist', 'entry': e, 'depth': 3 if tier == 'quick' else 4, 'seed': seed}
     # line granularity (every line of cvxopt/*.py is a scheduling point) for the pair of equal-dimension LP solves;
@@ -201,6 +203,18 @@ def run_options(case):
                     viol.append({'key': 'C09:options:invalid-value-accepted:%s@%s' % (opt, e),
                                  'msg': '%s(options={%r: %r}) should raise ValueError, got %s' % (e, opt, val, _brief(r)),
                                  'sub': {'entry': e, 'option': opt, 'value': repr(val)}})
+        # an EMPTY per-call dictionary is still a per-call dictionary: the globals must not leak in
+        solvers.options.clear()
+        ref_empty = _image(_do(call, {}))
+        solvers.options.clear()
+        solvers.options.update({'maxiters': 1, 'feastol': 1e-1})
+        r_empty = _do(call, {})
+        n += 2
+        nt += 1
+        if _image(r_empty) != ref_empty:
+            viol.append({'key': 'C09:options:empty-per-call-dictionary-ignored@%s' % e,
+                         'msg': "%s(options={}) with solvers.options = {'maxiters': 1, 'feastol': 0.1} gives %s, not the result of the "
+                                "defaults" % (e, _brief(r_empty))})
         fresh_globals()
         r = _do(call, dict(base_opts, abstol=-1.0, reltol=-1.0))
         n += 1
@@ -401,7 +415,38 @@ def run_sched(case):
             'states': n, 'transitions': n, 'traces': n}
 
 
+def run_tolerances(case):
+    """the given tolerances are the ones applied: certificate oracles of C01/C02 evaluated at per-call tolerance sets in
+    which abstol, reltol and feastol all differ, on optimal, primal infeasible and dual infeasible instances."""
+    O = solve.Oracle(PROPERTY)
+    n = nt = 0
+    outcomes = {}
+    optsets = [{'feastol': 1e-9, 'abstol': 1e-3, 'reltol': 1e-3}, {'feastol': 1e-3, 'abstol': 1e-9, 'reltol': 1e-9},
+               {'feastol': 1e-5, 'abstol': -1.0, 'reltol': 1e-2}]
+    d = case['dims']
+    for kind in ('strict', 'pinf', 'dinf'):
+        inst = next((i for i in (solve.planted(d, 2, 0, case['seed'] + k, kind) for k in range(6)) if i is not None), None)
+        if inst is None:
+            continue
+        entries = ['conelp'] + (['lp'] if not d['q'] and not d['s'] else []) + (['socp'] if not d['s'] else []) + (['sdp'] if not d['q'] else [])
+        for e in entries:
+            for o in optsets:
+                cfg = {'entry': e, 'storage': 'dense', 'kkt': None, 'opts': o}
+                res, _ = solve.call(inst, cfg)
+                n += 1
+                nv = len(O.viol)
+                lab = solve.check_result(O, inst, res, e, cfg)
+                outcomes[lab] = outcomes.get(lab, 0) + 1
+                nt += 1 if lab in ('optimal', 'primal infeasible', 'dual infeasible') else 0
+                for v in O.viol[nv:]:
+                    v['key'] = v['key'].replace('C09:', 'C09:tolerances:') + '@' + e
+                    v['sub'] = {'instance': {k: inst[k] for k in ('c', 'G', 'h', 'dims', 'A', 'b')}, 'cfg': cfg}
+    return {'n': n, 'nontrivial': nt, 'viol': O.viol[:10], 'outcomes': outcomes, 'states': n, 'transitions': n, 'traces': n}
+
+
 def run(case):
+    if case['part'] == 'tolerances':
+        return run_tolerances(case)
     if case['part'] == 'options':
         return run_options(case)
     if case['part'] == 'hist':
